@@ -175,7 +175,7 @@ def run(ctx):
   ctx.model('MC_Geometry', 'MC_Geometry.cfg')
   rng = np.random.default_rng(ctx.seed + 9)
   rs = []
-  for kind, n, per in (('cov', 2, 15), ('rca', 3, 10), ('lfda', 6, 5), ('lfda_small', 3, 4)) if ctx.quick else (('cov', 16, 60), ('rca', 32, 30), ('lfda', 64, 15), ('lfda_small', 32, 15)):
+  for kind, n, per in (('cov', 2, 15), ('rca', 3, 10), ('lfda', 6, 5), ('lfda_small', 3, 4)) if ctx.quick else (('cov', 32, 60), ('rca', 48, 30), ('lfda', 64, 15), ('lfda_small', 32, 15)):
     for i in range(n):
       rs.append(dict(kind=kind, n=per, seed=int(rng.integers(1 << 30))))
   ctx.rule = ('random layouts: Covariance (d 1..5, full-rank / exactly singular covariance, duplicated samples), RCA (unbalanced '
